@@ -20,7 +20,9 @@ CanFlags == << Flag("crcErr", 0, 1), Flag("ackErr", 0, 2), Flag("passiveAckErr",
                Flag("eofErr", 0, 256), Flag("bitErr", 0, 512), Flag("r0", 0, 1024), Flag("srrDom", 0, 2048),
                Flag("brs", 0, 4096), Flag("esi", 0, 8192) >>
 
-CommonFlags(word) == << Flag8("recalc", word, 1), Flag8("insync", word, 2), F("segmentType", word + 4, 2),
+(* "segMask" is the two segmentation bits addressed through the flag accessors with the two-bit mask CommonFlags::seg: *)
+(* set = both bits, clear = neither, get = any (values 00 and 11 only)                                                  *)
+CommonFlags(word) == << Flag8("recalc", word, 1), Flag8("insync", word, 2), F("segmentType", word + 4, 2), F("segMask", word + 4, 2),
                         Flag8("diOnIf", word, 16), Flag8("overflow", word, 32), Flag8("errorInPayload", word, 64) >>
 
 Table0 == [
@@ -97,7 +99,7 @@ Table0 == [
                     F("timestamp", 48, 64), F("interfaceId", 112, 32), F("vendorId", 144, 16), F("commonFlags", 160, 8),
                     F("segmentType", 168, 8) >>,
       views  |-> << Flag8("recalc", 160, 1), Flag8("insync", 160, 2), Flag8("diOnIf", 160, 16), Flag8("overflow", 160, 32),
-                    Flag8("errorInPayload", 160, 64) >>]
+                    Flag8("errorInPayload", 160, 64), F("segMask", 164, 2) >>]
 ]
 
 (* the public nested Header classes share the tables of their payload classes *)
